@@ -800,3 +800,317 @@ Theorem convert_to_field_code_bridge O n sch f :
   field_of O n sch = Some f ->
   convert_to_field_code O (2 * n + 1) sch (PList []) = Ok (PStr (rt O (field_toks f))).
 Proof. intro H. exact (proj1 (convert_spec O n) _ (le_n _) sch f H). Qed.
+
+(* ------------------------------------------------------------------ schema_to_struct_code *)
+
+Lemma default_of_has O kv d :
+  default_of O kv = Some d -> shas kv "default" = match d with Some _ => true | None => false end.
+Proof.
+  unfold default_of, dict_has. destruct (sget kv "default") as [v|]; intro H.
+  - destruct v; cbn [option_map lit_of num_of] in H; try discriminate;
+      try (injection H as <-; reflexivity);
+      match type of H with option_map _ ?x = _ => destruct x; [injection H as <-; reflexivity | discriminate] end.
+  - injection H as <-. reflexivity.
+Qed.
+
+Ltac split_hyp H :=
+  repeat match type of H with
+         | match ?x with _ => _ end = Some _ => let E := fresh "E" in destruct x eqn:E; try discriminate
+         | (if ?x then _ else _) = Some _ => let E := fresh "E" in destruct x eqn:E; try discriminate
+         | option_map _ ?x = Some _ => let E := fresh "E" in destruct x eqn:E; try discriminate; cbn [option_map] in H
+         end.
+
+Lemma field_default_has O sub kv f :
+  field_of_dict O sub kv = Some f ->
+  shas kv "default" = match field_default f with Some _ => true | None => false end.
+Proof.
+  intro H. unfold field_of_dict, typed_of, object_of in H.
+  split_hyp H; injection H as <-; cbn [field_default];
+    solve [ reflexivity | assumption | eapply default_of_has; eassumption ].
+Qed.
+
+Definition req_val (r : option (list pystr)) : pyval :=
+  match r with Some l => PList (map PStr l) | None => PNone end.
+Definition prop_line (O : cg_oracle) (p : pystr * jfield) : pystr :=
+  rt O (raw "    " :: TStr (s2p "property_name") (fst p) :: raw ": " :: field_toks (snd p)).
+
+Lemma pystr_eqb_sym a b : pystr_eqb a b = pystr_eqb b a.
+Proof.
+  destruct (pystr_eqb a b) eqn:E1, (pystr_eqb b a) eqn:E2; try reflexivity.
+  - apply pystr_eqb_spec in E1. subst. rewrite pystr_eqb_refl in E2. discriminate.
+  - apply pystr_eqb_spec in E2. subst. rewrite pystr_eqb_refl in E1. discriminate.
+Qed.
+
+Lemma py_in_strs k r : py_in (PStr k) (map PStr r) = str_in k r.
+Proof. unfold py_in, str_in. induction r as [|y r IH]; [reflexivity|]. cbn [map existsb]. rewrite IH. reflexivity. Qed.
+
+Lemma remove_strs k r :
+  str_in k r = true -> remove_first_eq (PStr k) (map PStr r) = Some (map PStr (remove_first k r)).
+Proof.
+  unfold str_in. induction r as [|y r IH]; [discriminate|]. cbn [map existsb remove_first_eq remove_first py_eq].
+  rewrite (pystr_eqb_sym y k). destruct (pystr_eqb k y); [reflexivity|]. cbn [orb]. intro H. rewrite (IH H). reflexivity.
+Qed.
+
+Lemma props_loop O n rec (F : pyval -> pyval * pyval -> res (pyval * pyval)) :
+  rec_fields O n rec ->
+  (forall x s_body s_required, F x (s_body, s_required) =
+     (p26 <- py_unpack2 x ;; (c <- (py_and (py_in_dyn (PStr (s2p "default")) (pair_snd p26)) (fun _ => (py_and (Ok (py_is_not_none s_required)) (fun _ => (py_in_dyn (pair_fst p26) s_required))))) ;;
+      if c then (t29 <- cg_list_remove s_required (pair_fst p26) ;; let v_required_30 := t29 in (s31 <- cg_format O (pair_fst p26) ;; t32 <- rec (pair_snd p26) (PList []) ;; s33 <- cg_format O t32 ;; t34 <- cg_list_concat s_body (PList [(PStr ((s2p "    ") ++ s31 ++ (s2p ": ") ++ s33)%list)]) ;; let v_body_35 := t34 in (Ok (v_body_35, v_required_30))))
+      else (s36 <- cg_format O (pair_fst p26) ;; t37 <- rec (pair_snd p26) (PList []) ;; s38 <- cg_format O t37 ;; t39 <- cg_list_concat s_body (PList [(PStr ((s2p "    ") ++ s36 ++ (s2p ": ") ++ s38)%list)]) ;; let v_body_40 := t39 in (Ok (v_body_40, s_required)))))) ->
+  forall pkv props, mapO (prop_of (field_of O n)) pkv = Some props ->
+  forall lines req req', final_required req props = Some req' ->
+  for_state (map mk pkv) F (PList (map PStr lines), req_val req)
+  = Ok (PList (map PStr (lines ++ map (prop_line O) props)), req_val req').
+Proof.
+  destruct sites_name as (_ & Hpn & _).
+  intros Hf HF. induction pkv as [|[a b] pkv IH]; intros props H lines req req' Hfin.
+  - injection H as <-. cbn [final_required] in Hfin. injection Hfin as <-. cbn [map for_state]. rewrite app_nil_r. reflexivity.
+  - cbn [mapO] in H. unfold prop_of in H at 1. cbn [fst snd] in H.
+    destruct a; try discriminate. destruct (field_of O n b) as [f|] eqn:E; [|discriminate].
+    destruct (mapO (prop_of (field_of O n)) pkv) as [props'|] eqn:Ep; [|discriminate]. injection H as <-.
+    cbn [final_required] in Hfin.
+    assert (Hline : forall R : pyval,
+       (s36 <- cg_format O (PStr s) ;; t37 <- rec b (PList []) ;; s38 <- cg_format O t37 ;;
+        t39 <- cg_list_concat (PList (map PStr lines)) (PList [(PStr ((s2p "    ") ++ s36 ++ (s2p ": ") ++ s38)%list)]) ;;
+        Ok (t39, R))
+       = Ok (PList (map PStr (lines ++ [prop_line O (s, f)])), R)).
+    { intro R. cbn [cg_format bind]. rewrite (Hf b f E). cbn [cg_format bind cg_list_concat].
+      rewrite map_app. unfold prop_line. cbn [fst snd map]. unfold raw. rewrite rt_raw, (rt_str_name O _ _ _ Hpn), rt_raw. reflexivity. }
+    assert (Hd : py_in_dyn (PStr (s2p "default")) b = Ok (match field_default f with Some _ => true | None => false end)).
+    { destruct n as [|n']; [discriminate|]. cbn [field_of] in E. destruct b; try discriminate.
+      cbn [py_in_dyn py_hashable']. rewrite (field_default_has O _ _ f E). reflexivity. }
+    cbn [map for_state]. rewrite HF. unfold mk at 1. cbn [py_unpack2 bind pair_fst pair_snd fst snd]. rewrite Hd.
+    cbn [map].
+    destruct (field_default f) as [dv|]; [destruct req as [r|]|]; cbn [py_and bind req_val py_is_not_none py_is_none negb].
+    + cbn [py_in_dyn]. unfold py_in_lit. rewrite py_in_strs. cbn [bind]. destruct (str_in s r) eqn:Es.
+      * cbn [cg_list_remove]. rewrite (remove_strs s r Es). cbn [bind]. rewrite Hline. cbn [bind].
+        etransitivity; [exact (IH props' eq_refl (lines ++ [prop_line O (s, f)])%list (Some (remove_first s r)) req' Hfin)|].
+        rewrite <- app_assoc. reflexivity.
+      * rewrite Hline. cbn [bind]. etransitivity; [exact (IH props' eq_refl (lines ++ [prop_line O (s, f)])%list (Some r) req' Hfin)|].
+        rewrite <- app_assoc. reflexivity.
+    + rewrite Hline. cbn [bind]. etransitivity; [exact (IH props' eq_refl (lines ++ [prop_line O (s, f)])%list None req' Hfin)|].
+        rewrite <- app_assoc. reflexivity.
+    + rewrite Hline. cbn [bind]. etransitivity; [exact (IH props' eq_refl (lines ++ [prop_line O (s, f)])%list req req' Hfin)|].
+        rewrite <- app_assoc. reflexivity.
+Qed.
+
+Definition desc_of (kv : list (pyval * pyval)) : option (option pystr) :=
+  if shas kv "description" then match sget kv "description" with Some (PStr d) => Some (Some d) | _ => None end
+  else Some None.
+Definition type_ok (kv : list (pyval * pyval)) : bool :=
+  match sget kv "type" with
+  | None => shas kv "properties"
+  | Some (PStr t) => pystr_eqb t (s2p "object")
+  | Some _ => false
+  end.
+Definition props_kv (kv : list (pyval * pyval)) : option (list (pyval * pyval)) :=
+  match sget kv "properties" with
+  | None => Some []
+  | Some (PDict pkv) => Some pkv
+  | Some _ => None
+  end.
+
+Definition lines_val (O : cg_oracle) (parts : list (list tok)) : pyval := PList (map PStr (map (rt O) parts)).
+
+Lemma piece_desc O kv d :
+  desc_of kv = Some d ->
+  (c <- (py_in_dyn (PStr (s2p "description")) (PDict kv)) ;;
+   if c then (t3 <- py_dict_get_def (PDict kv) (PStr (s2p "description")) PNone ;; s4 <- cg_repr O t3 ;;
+              Ok (PList [(PStr ((s2p "    ") ++ s4 ++ [10]%N)%list)])) else (Ok (PList [])))
+  = Ok (lines_val O match d with Some x => [[raw "    "; TStr (s2p "description") x; nl]] | None => [] end).
+Proof.
+  destruct sites_repr as (Hd & _).
+  unfold desc_of. rewrite get_def_dict. sx. unfold dict_has, getdef. destruct (sget kv "description") as [v|]; intro H.
+  - destruct v; try discriminate. injection H as <-. sx. cbn [cg_repr bind]. unfold lines_val. cbn [map].
+    unfold raw, nl, raw. rewrite rt_raw, (rt_str_repr O _ _ _ Hd), rt_raw1. reflexivity.
+  - injection H as <-. reflexivity.
+Qed.
+
+Lemma piece_closed O kv :
+  (c <- (py_not (t8 <- py_dict_get_def (PDict kv) (PStr (s2p "additionalProperties")) (PBool true) ;; Ok (py_truthy t8))) ;;
+   if c then (Ok (PList [(PStr (s2p "    _additional_properties = False"))])) else (Ok (PList [])))
+  = Ok (lines_val O (if closed_of kv then [[raw "    _additional_properties = False"]] else [])).
+Proof.
+  rewrite get_def_dict. sx. unfold closed_of.
+  destruct (py_truthy (getdef kv (s2p "additionalProperties") (PBool true))); cbn [negb]; [reflexivity|].
+  unfold lines_val. cbn [map]. unfold raw. rewrite rt_raw1. reflexivity.
+Qed.
+
+Lemma piece_required kv req :
+  type_ok kv = true -> required_of (sget kv "required") = Some req ->
+  (t14 <- (c <- (t12 <- py_dict_get_def (PDict kv) (PStr (s2p "type")) (PStr (s2p "object")) ;; py_eqv t12 (PStr (s2p "object"))) ;;
+           if c then (t13 <- py_dict_get_def (PDict kv) (PStr (s2p "required")) PNone ;; Ok t13)
+           else (Ok (PList [(PStr (s2p "wrapped"))]))) ;;
+   (c <- (Ok (py_is_not_none t14)) ;; if c then (t16 <- py_list t14 ;; Ok t16) else (Ok PNone)))
+  = Ok (req_val req).
+Proof.
+  unfold type_ok. rewrite !get_def_dict. sx. unfold getdef. intros Ht Hr.
+  assert (E : py_eq (match sget kv "type" with Some v => v | None => PStr (s2p "object") end) (PStr (s2p "object")) = true).
+  { destruct (sget kv "type") as [t|]; [destruct t; try discriminate; exact Ht | apply pystr_eqb_refl]. }
+  rewrite E. sx.
+  destruct (sget kv "required") as [v|]; [destruct v; try discriminate|]; cbn [required_of option_map] in Hr.
+  - injection Hr as <-. reflexivity.
+  - destruct (as_strs l) as [r|] eqn:El; [|discriminate]. injection Hr as <-. sx.
+    assert (l = map PStr r) as ->; [|reflexivity].
+    revert r El. induction l as [|x l IH]; intros r El.
+    + injection El as <-. reflexivity.
+    + cbn [as_strs] in El. destruct x; try discriminate. destruct (as_strs l) as [r'|]; [|discriminate].
+      injection El as <-. cbn [map]. rewrite <- (IH r' eq_refl). reflexivity.
+  - injection Hr as <-. reflexivity.
+Qed.
+
+Lemma piece_type kv :
+  type_ok kv = true ->
+  (t19 <- (c <- (py_in_dyn (PStr (s2p "properties")) (PDict kv)) ;; if c then (Ok (PStr (s2p "object"))) else (Ok PNone)) ;;
+   t20 <- py_dict_get_def (PDict kv) (PStr (s2p "type")) t19 ;; py_eqv t20 (PStr (s2p "object")))
+  = Ok true.
+Proof.
+  unfold type_ok. sx. unfold dict_has. intro H.
+  destruct (sget kv "type") as [t|] eqn:Et.
+  - destruct t; try discriminate. destruct (sget kv "properties"); sx; rewrite get_def_dict; unfold getdef; rewrite Et; sx;
+      unfold py_eqv; cbn [py_eq]; rewrite H; reflexivity.
+  - unfold dict_has in H. destruct (sget kv "properties"); [|discriminate]. sx. rewrite get_def_dict. unfold getdef. rewrite Et. sx.
+    unfold py_eqv. cbn [py_eq]. rewrite pystr_eqb_refl. reflexivity.
+Qed.
+
+Lemma piece_final O body r :
+  (t45 <- (c <- (Ok (py_is_not_none (req_val r))) ;;
+           if c then (s44 <- cg_format O (req_val r) ;; Ok (PList [(PStr (@nil N)); (PStr ((s2p "    _required = ") ++ s44)%list)]))
+           else (Ok (PList []))) ;;
+   t46 <- cg_list_concat (lines_val O body) t45 ;; let v_body_47 := t46 in (cg_str_join (PStr [10]%N) v_body_47))
+  = Ok (PStr (rt O (join [nl] (body ++ match r with
+                                        | Some r => [[]; raw "    _required = " :: list_toks (s2p "required") (map LStr r)]
+                                        | None => []
+                                        end)))).
+Proof.
+  destruct sites_repr as (_ & Hr & _).
+  assert (Hnl : rt O [nl] = [10]%N) by (unfold nl, raw; rewrite rt_raw1; reflexivity).
+  destruct r as [r|]; cbn [req_val py_is_not_none py_is_none negb bind].
+  - cbn [cg_format]. 
+    assert (El : mapO (lit_of O) (map PStr r) = Some (map LStr r)).
+    { apply as_strs_lits. apply as_strs_map. }
+    rewrite (lits_list_repr O _ _ _ Hr El). cbn [bind]. unfold lines_val. cbn [cg_list_concat bind].
+    change [PStr []; PStr (s2p "    _required = " ++ rt O (list_toks (s2p "required") (map LStr r)))%list]
+      with (map PStr [ @nil N; (s2p "    _required = " ++ rt O (list_toks (s2p "required") (map LStr r)))%list]).
+    rewrite <- map_app, join_map, rt_join, Hnl, map_app. cbn [map]. unfold raw. rewrite rt_raw, rt_nil. reflexivity.
+  - unfold lines_val. cbn [cg_list_concat bind]. rewrite !app_nil_r, join_map, rt_join, Hnl. reflexivity.
+Qed.
+
+Lemma bind_step {A B} (X : res A) (v : A) (F : A -> res B) (R : res B) : X = Ok v -> F v = R -> bind X F = R.
+Proof. intros -> H. exact H. Qed.
+
+Lemma concat_lines O a b : cg_list_concat (lines_val O a) (lines_val O b) = Ok (lines_val O (a ++ b)).
+Proof. unfold lines_val. cbn [cg_list_concat]. rewrite !map_app. reflexivity. Qed.
+
+Lemma class_of_parts O n name kv c :
+  class_of O n name (PDict kv) = Some c ->
+  type_ok kv = true /\
+  exists d req pkv ps,
+    desc_of kv = Some d /\ required_of (sget kv "required") = Some req /\ props_kv kv = Some pkv
+    /\ mapO (prop_of (field_of O n)) pkv = Some ps
+    /\ c = {| c_name := name; c_description := d; c_closed := closed_of kv; c_required := req; c_props := ps |}.
+Proof.
+  unfold class_of. fold (type_ok kv). fold (desc_of kv). intro H.
+  destruct (type_ok kv); [|discriminate]. split; [reflexivity|].
+  destruct (desc_of kv) as [d|]; [|discriminate].
+  destruct (required_of (sget kv "required")) as [req|]; [|discriminate].
+  unfold props_kv. destruct (sget kv "properties") as [pv|].
+  - destruct pv; try discriminate. destruct (mapO (prop_of (field_of O n)) kv0) as [ps|] eqn:E; [|discriminate].
+    injection H as <-. exists d, req, kv0, ps. repeat split; assumption.
+  - injection H as <-. exists d, req, [], []. repeat split; reflexivity.
+Qed.
+
+Lemma piece_req1 kv :
+  type_ok kv = true ->
+  (c <- (t12 <- py_dict_get_def (PDict kv) (PStr (s2p "type")) (PStr (s2p "object")) ;; py_eqv t12 (PStr (s2p "object"))) ;;
+   if c then (t13 <- py_dict_get_def (PDict kv) (PStr (s2p "required")) PNone ;; Ok t13)
+   else (Ok (PList [(PStr (s2p "wrapped"))])))
+  = Ok (getdef kv (s2p "required") PNone).
+Proof.
+  unfold type_ok. rewrite !get_def_dict. sx. unfold getdef at 1. intros Ht.
+  assert (E : py_eq (match sget kv "type" with Some v => v | None => PStr (s2p "object") end) (PStr (s2p "object")) = true).
+  { destruct (sget kv "type") as [t|]; [destruct t; try discriminate; exact Ht | apply pystr_eqb_refl]. }
+  rewrite E. reflexivity.
+Qed.
+
+Lemma piece_req2 kv req :
+  required_of (sget kv "required") = Some req ->
+  (c <- (Ok (py_is_not_none (getdef kv (s2p "required") PNone))) ;;
+   if c then (t16 <- py_list (getdef kv (s2p "required") PNone) ;; Ok t16) else (Ok PNone))
+  = Ok (req_val req).
+Proof.
+  unfold getdef. intros Hr.
+  destruct (sget kv "required") as [v|]; [destruct v; try discriminate|]; cbn [required_of option_map] in Hr.
+  - injection Hr as <-. reflexivity.
+  - destruct (as_strs l) as [r|] eqn:El; [|discriminate]. injection Hr as <-. sx.
+    assert (l = map PStr r) as ->; [|reflexivity].
+    revert r El. induction l as [|x l IH]; intros r El.
+    + injection El as <-. reflexivity.
+    + cbn [as_strs] in El. destruct x; try discriminate. destruct (as_strs l) as [r'|]; [|discriminate].
+      injection El as <-. cbn [map]. rewrite <- (IH r' eq_refl). reflexivity.
+  - injection Hr as <-. reflexivity.
+Qed.
+
+Lemma piece_type2 kv :
+  type_ok kv = true ->
+  py_eq (getdef kv (s2p "type") (if shas kv "properties" then PStr (s2p "object") else PNone)) (PStr (s2p "object")) = true.
+Proof.
+  unfold type_ok, getdef. destruct (sget kv "type") as [t|].
+  - destruct t; try discriminate. trivial.
+  - intros ->. apply pystr_eqb_refl.
+Qed.
+
+Lemma piece_type1 kv :
+  (c <- (py_in_dyn (PStr (s2p "properties")) (PDict kv)) ;; if c then (Ok (PStr (s2p "object"))) else (Ok PNone))
+  = Ok (if shas kv "properties" then PStr (s2p "object") else PNone).
+Proof. sx. destruct (shas kv "properties"); reflexivity. Qed.
+
+Lemma props_kv_get kv pkv : props_kv kv = Some pkv -> getdef kv (s2p "properties") (PDict []) = PDict pkv.
+Proof.
+  unfold props_kv, getdef. destruct (sget kv "properties") as [v|]; [destruct v; try discriminate|]; intro H; injection H as <-; reflexivity.
+Qed.
+
+Definition prop_parts (p : pystr * jfield) : list tok :=
+  raw "    " :: TStr (s2p "property_name") (fst p) :: raw ": " :: field_toks (snd p).
+
+(* schema_to_struct_code emits exactly the text of the model's class_toks *)
+Theorem schema_to_struct_code_bridge O n name sch c toks :
+  class_of O n name sch = Some c -> class_toks c = Some toks ->
+  schema_to_struct_code O (2 * n + 1) (PStr name) sch (PList []) = Ok (PStr (rt O toks)).
+Proof.
+  destruct sites_name as (Hsn & _).
+  intros H Ht. destruct sch; try discriminate.
+  destruct (class_of_parts O n name kv c H) as (Hty & d & req & pkv & ps & Hd & Hreq & Hpk & Hps & ->).
+  unfold class_toks in Ht. cbn [c_name c_description c_closed c_required c_props] in Ht.
+  destruct (final_required req ps) as [req'|] eqn:Hfin; [|discriminate]. injection Ht as <-.
+  unfold schema_to_struct_code, schema_to_struct_code_body.
+  set (rec := convert_to_field_code O (2 * n + 1)).
+  assert (Hf : rec_fields O n rec) by (apply (proj1 (convert_spec O n)); lia).
+  cbn [cg_format bind].
+  assert (Hhead : PList [PStr (s2p "class " ++ name ++ s2p "(Structure):")%list]
+                  = lines_val O [[raw "class "; TStr (s2p "struct_name") name; raw "(Structure):"]]).
+  { unfold lines_val. cbn [map]. unfold raw. rewrite rt_raw, (rt_str_name O _ _ _ Hsn), rt_raw1. reflexivity. }
+  rewrite Hhead.
+  eapply bind_step; [exact (piece_desc O kv d Hd)|]. cbv beta zeta.
+  eapply bind_step; [exact (concat_lines O _ _)|]. cbv beta zeta.
+  eapply bind_step; [exact (piece_closed O kv)|]. cbv beta zeta.
+  eapply bind_step; [exact (concat_lines O _ _)|]. cbv beta zeta.
+  eapply bind_step; [exact (piece_req1 kv Hty)|]. cbv beta zeta.
+  eapply bind_step; [exact (piece_req2 kv req Hreq)|]. cbv beta zeta.
+  eapply bind_step; [exact (piece_type1 kv)|]. cbv beta zeta.
+  eapply bind_step; [exact (get_def_dict _ _ _)|]. cbv beta zeta.
+  eapply bind_step; [exact (f_equal Ok (piece_type2 kv Hty))|]. cbv beta iota zeta.
+  eapply bind_step; [exact (get_def_dict _ _ _)|]. cbv beta zeta. rewrite (props_kv_get kv pkv Hpk).
+  eapply bind_step; [exact (dict_items_mk pkv)|]. cbv beta zeta.
+  eapply bind_step.
+  { cbn [py_for_state]. unfold lines_val.
+    exact (props_loop O n rec _ Hf (fun x b r => eq_refl) pkv ps Hps _ req req' Hfin). }
+  cbv beta iota zeta.
+  match goal with |- context [PList (map PStr (map (rt O) ?parts ++ map (prop_line O) ps))] =>
+    replace (PList (map PStr (map (rt O) parts ++ map (prop_line O) ps)))
+      with (lines_val O (parts ++ map prop_parts ps))
+      by (unfold lines_val; rewrite map_app, map_map; reflexivity)
+  end.
+  etransitivity; [exact (piece_final O _ req')|].
+  rewrite <- !app_assoc. reflexivity.
+Qed.
